@@ -50,8 +50,8 @@ pub fn prop() -> HistProp {
                 c
             }).boxed()
         },
-        quick: 4000,
-        thorough: 100000,
+        quick: 12000,
+        thorough: 300000,
         mk: |_, _, _| Box::new(C05 { nontrivial: false }),
         extra: None,
         many_batches: 0,
